@@ -176,3 +176,12 @@ Proof. vm_compute. reflexivity. Qed.
 Example C19_upd_other_dt_rejected :
   holds_b (ex_upd [ (UAddH 0, []); (UAddOUP 1, []); (UProcess 4, [(0, 8)]) ]) = false.
 Proof. vm_compute. reflexivity. Qed.
+
+(* k.pref = p passing a priority of its own: world A runs / lists p with
+   another priority attribute than add_processor(p) gives it on world B *)
+Example C19_reference_priority_rejected :
+  let sp (pr : Z) := Build_snap [1] [[0; 1; 2]] [true] [0] [pr] [(0, Some 1)] true in
+  let c := ex_ctrl (firstn 3 ex_prefix ++
+    [ (OShort 0 1 (SPRefSet 100 0 2), Build_cobs RNone [] (sp 0) RNone [] (sp 2) None) ]) in
+  wf_b c = true /\ accepts c = false /\ holds_b c = false.
+Proof. vm_compute. auto. Qed.
